@@ -2,7 +2,8 @@
 //!
 //! Oracle: verdict model (PASS <=> the file builds and every evaluated assert
 //! has ok = true; malformed asserts count as failures) + metamorphism (a file's
-//! verdict and log do not depend on the other files of the invocation).
+//! verdict and log do not depend on the other files of the invocation, also when
+//! two test files import the same helper file that carries an assert).
 
 use crate::cli;
 use crate::core::*;
@@ -32,7 +33,14 @@ enum St {
     /// an assert in the body of a module that is instantiated by a function applied through map
     DeepTrue,
     DeepFalse,
+    /// import of a helper file (not a test file itself) that carries an assert; an import is
+    /// evaluated once per build, so only the first import of a helper in a file logs its assert
+    ImportOk,
+    ImportBad,
 }
+
+const HELPER_OK: &str = "assert {ok = 1 == 1, desc = \"helper-ok\"};\nlet v = 1;\n";
+const HELPER_BAD: &str = "let v = 2;\nassert {ok = v == 1, desc = \"helper-bad\"};\n";
 
 #[derive(Clone, Debug)]
 struct TestFile {
@@ -57,6 +65,8 @@ impl TestFile {
                 St::BuildError => s.push_str(&format!("let boom{} = 1 / (1 - 1);\n", j)),
                 St::SyntaxError => s.push_str(&format!("let broken{} = = 1;\n", j)),
                 St::Let => s.push_str(&format!("let x{} = {};\n", j, j)),
+                St::ImportOk => s.push_str(&format!("let h{} = import \"./helper_ok.ucg\";\n", j)),
+                St::ImportBad => s.push_str(&format!("let h{} = import \"./helper_bad.ucg\";\n", j)),
                 St::DeepTrue | St::DeepFalse => s.push_str(&format!(
                     "let chk{j} = module {{v = 1}} => {{ assert {{ok = mod.v == 1, desc = \"{d}\"}}; }};\nlet run{j} = map(func (x) => chk{j}{{v = x}}, [{v}]);\n",
                     j = j,
@@ -70,7 +80,7 @@ impl TestFile {
 
     /// does the model say PASS?
     fn passes(&self) -> bool {
-        self.stmts.iter().all(|s| matches!(s, St::True | St::Let | St::DeepTrue))
+        self.stmts.iter().all(|s| matches!(s, St::True | St::Let | St::DeepTrue | St::ImportOk))
     }
 
     fn builds(&self) -> bool {
@@ -87,6 +97,16 @@ impl TestFile {
             match st {
                 St::True | St::DeepTrue => out.push((format!("f{}a{}", fi, j), true)),
                 St::False | St::DeepFalse => out.push((format!("f{}a{}", fi, j), false)),
+                St::ImportOk => {
+                    if !out.iter().any(|(d, _)| d == "helper-ok") {
+                        out.push(("helper-ok".to_string(), true));
+                    }
+                }
+                St::ImportBad => {
+                    if !out.iter().any(|(d, _)| d == "helper-bad") {
+                        out.push(("helper-bad".to_string(), false));
+                    }
+                }
                 St::BuildError => break,
                 _ => {}
             }
@@ -196,6 +216,12 @@ impl C13 {
         let dir = crate::ucgrun::new_scratch_dir("c13");
         for (i, f) in files.iter().enumerate() {
             std::fs::write(dir.join(&f.name), f.source(i)).expect("write");
+        }
+        std::fs::write(dir.join("helper_ok.ucg"), HELPER_OK).expect("write");
+        std::fs::write(dir.join("helper_bad.ucg"), HELPER_BAD).expect("write");
+        let shared_helper = [St::ImportOk, St::ImportBad].iter().any(|h| files.iter().filter(|f| f.stmts.contains(h)).count() >= 2);
+        if shared_helper {
+            o.class("helper-with-assert-imported-by-two-files");
         }
         let names: Vec<String> = files.iter().map(|f| f.name.clone()).collect();
         o.class(&format!("files-{}", files.len()));
@@ -339,6 +365,8 @@ fn st_from_str(s: &str) -> St {
         "SyntaxError" => St::SyntaxError,
         "DeepTrue" => St::DeepTrue,
         "DeepFalse" => St::DeepFalse,
+        "ImportOk" => St::ImportOk,
+        "ImportBad" => St::ImportBad,
         _ => St::Let,
     }
 }
@@ -348,7 +376,7 @@ impl Property for C13 {
         "C13"
     }
     fn rule(&self) -> String {
-        "generated *_test.ucg files with 0..8 statements drawn from {true assert, false assert, malformed assert (ok not boolean, missing desc, not a tuple; visible and hidden behind a function call), run-time build error, syntax error, plain let}; every invocation order of 1..4 such files (all permutations) plus `ucg test -r .`; the real binary's stdout (per-file log, `File f Pass|Fail`, RESULTS lines) and exit status are compared with the verdict model, each assertion must appear exactly once in its own file's log and in no other. Non-trivial: >= 2 files with a failing file before a passing one in some order; distinct by the set of files.".into()
+        "generated *_test.ucg files with 0..8 statements drawn from {true assert, false assert, malformed assert (ok not boolean, missing desc, not a tuple; visible and hidden behind a function call), run-time build error, syntax error, plain let, import of a shared helper file that carries a true / false assert (logged once per importing file)}; every invocation order of 1..4 such files (all permutations) plus `ucg test -r .`; the real binary's stdout (per-file log, `File f Pass|Fail`, RESULTS lines) and exit status are compared with the verdict model, each assertion must appear exactly once in its own file's log and in no other. Non-trivial: >= 2 files with a failing file before a passing one in some order; distinct by the set of files.".into()
     }
     fn assumptions(&self) -> Vec<String> {
         vec!["for a file whose build fails only the verdict, the RESULTS line, the exit status and the absence of its assertions from other files' logs are checked (such a file prints no log)".into()]
@@ -378,9 +406,11 @@ impl Property for C13 {
             for _ in 0..n {
                 let st = match flavour {
                     0 => {
-                        if t.chance(1, 5) { St::Let } else if t.chance(1, 5) { St::DeepTrue } else { St::True }
+                        if t.chance(1, 5) { St::Let } else if t.chance(1, 5) { St::DeepTrue } else if t.chance(1, 6) { if t.chance(1, 3) { St::ImportBad } else { St::ImportOk } } else { St::True }
                     }
-                    1 => match t.weighted(&[6, 3, 1, 1, 1, 1, 1, 1, 1, 2, 2, 2]) {
+                    1 => match t.weighted(&[6, 3, 1, 1, 1, 1, 1, 1, 1, 2, 2, 2, 2, 2]) {
+                        12 => St::ImportOk,
+                        13 => St::ImportBad,
                         10 => St::DeepTrue,
                         11 => St::DeepFalse,
                         0 => St::True,
